@@ -95,9 +95,9 @@ def gen_case(rng):
     delim = rng.choice(DELIMS)
     env = {}
     if rng.random() < 0.7:
-        env["FOO"] = "/foo"
+        env["FOO"] = "/foo" if rng.random() < 0.8 else ""      # defined-but-empty is still defined
     if rng.random() < 0.4:
-        env["BAR"] = "bar"
+        env["BAR"] = "bar" if rng.random() < 0.8 else ""
     acts, specs = [], []
     nact = 1 if rng.random() < 0.6 else rng.randint(2, 6)
     roundtrip = rng.random() < 0.25      # setup action followed by its own unsetup
